@@ -45,6 +45,7 @@ func preflight(regime int) *failure {
 
 	_, cm := env.NewManager()
 	var fail *failure
+	lostKind := false // polls from an index that was reached and is still held
 	// poll runs one UpdatesSince and compares it with the prescribed chunk ("-x" revert, "+x" apply)
 	poll := func(idx *types.ChainIndex, max int, want ...string) {
 		if fail != nil {
@@ -62,7 +63,11 @@ func preflight(regime int) *failure {
 			rus, aus, err = cm.UpdatesSince(*idx, max)
 		}()
 		if err != nil {
-			fail = &failure{"c04-error-for-reached-index", fmt.Sprintf("preflight (regime %d): UpdatesSince(%s, %d) failed: %v", regime, name[idx.ID], max, err)}
+			kind := "c04-error-for-reached-index"
+			if lostKind {
+				kind = "c04-held-index-lost"
+			}
+			fail = &failure{kind, fmt.Sprintf("preflight (regime %d): UpdatesSince(%s, %d) failed: %v", regime, name[idx.ID], max, err)}
 			return
 		}
 		after, kind, detail := subs.CheckChunk(*idx, max, rus, aus)
@@ -90,7 +95,7 @@ func preflight(regime int) *failure {
 	poll(&s1, 2, "+g", "+a1")
 	poll(&s1, 2, "+a2", "+a3")
 	poll(&s1, 2)
-	s2, s3 := s1, s1
+	s2, s3, parked := s1, s1, s1
 	if err := cm.AddBlocks(b); err != nil {
 		panic(err)
 	}
@@ -108,6 +113,23 @@ func preflight(regime int) *failure {
 	poll(&s3, 1000, "-a3", "-a2", "+b2", "+b3", "+b4")
 	var s4 types.ChainIndex
 	poll(&s4, 1000, "+g", "+a1", "+b2", "+b3", "+b4")
+	// subscribers parked on the stale branch; its already applied blocks are submitted again
+	// (only the first above the fork point, then the whole branch): nothing may change for them
+	p1, p2, p3, p4 := parked, parked, parked, parked
+	if err := cm.AddBlocks(a[1:2]); err != nil {
+		panic(err)
+	}
+	lostKind = true
+	poll(&p1, 2, "-a3", "-a2")
+	poll(&p1, 100, "+b2", "+b3", "+b4")
+	if err := cm.AddBlocks(a[1:]); err != nil {
+		panic(err)
+	}
+	poll(&p2, 1, "-a3")
+	poll(&p2, 1, "-a2")
+	poll(&p3, 2, "-a3", "-a2")
+	poll(&p4, 100, "-a3", "-a2", "+b2", "+b3", "+b4")
+	lostKind = false
 	// an id the store never held
 	var bogus types.ChainIndex
 	bogus.Height = 2
